@@ -155,12 +155,19 @@ def rule_documented_errors(ctx: Ctx, rule: str) -> None:
             widths = [rx.width(v)[1] for v in roles.get('numeric_forms', {}).values()]
             mx = max((16 ** w - 1) for w in widths if w) if widths else 0
             guarded = any('1114111' in t or '0x10ffff' in t.lower() or 'sys.maxunicode' in t for t, _p in q.guards(c))
-            in_try = any(isinstance(t, ast.Try) and any(x is c for s in t.body for x in ast.walk(s)) and
-                         any(h.type is not None and any(k in norm_src(h.type) for k in ('ValueError', 'OverflowError', 'Exception')) for h in t.handlers)
-                         for t in walk_no_nested(nm.node))
+            need = [k for k, lim in (('ValueError', 0x10FFFF), ('OverflowError', 0x7FFFFFFF)) if mx > lim]
+            caught: set = set()
+            for t in walk_no_nested(nm.node):
+                if isinstance(t, ast.Try) and any(x is c for s in t.body for x in ast.walk(s)):
+                    for h in t.handlers:
+                        ht = norm_src(h.type) if h.type is not None else 'BaseException'
+                        for k in ('ValueError', 'OverflowError'):
+                            if k in ht or 'Exception' in ht.replace('PathNameException', '').replace('DotException', ''):
+                                caught.add(k)
+            in_try = all(k in caught for k in need)
             ok = mx <= 0x10FFFF or guarded or in_try
             ctx.ob(rule, 'util:norm_pattern.norm/chr-hex-range', ok, repo.loc('util', c), 'hex escapes cannot exceed U+10FFFF (digit count, guard, or handler)',
-                   f'up to {max(widths or [0])} hex digits: max {mx:#x}', note='F13',
+                   f'up to {max(widths or [0])} hex digits: max {mx:#x}; chr() can raise {need}, handlers cover {sorted(caught)}', note='F13',
                    witness=r"fnmatch('a', r'\U00110000', flags=RAWCHARS) raises ValueError; r'\UFFFFFFFF' raises OverflowError")
         else:
             ol = roles.get('octal_lang')
